@@ -399,7 +399,10 @@ def classify(meta, line, model_out):
                 sub(k)
         sub(tree)
         kids = trees[int(index)][1]
-        if F(row[3]) < 0 and not kids and F(row[1]) >= F(meta['bottom']):
+        # a fragment without in-flow content (no child, or only out-of-flow ones: the float / absolutely positioned box
+        # that was the block's first child) whose margin box starts at or below the page bottom: its height is
+        # page bottom - position_y < 0
+        if F(row[3]) < 0 and all(k[0][24] == 'oof' for k in kids) and F(row[1]) >= F(meta['bottom']):
             return 'empty-fragment-below-page-bottom'
         if F(row[3]) < 0 and meta['types'][int(index)] in ('TableRowBox', 'TableRowGroupBox'):
             return 'table-row-group-negative-height'
